@@ -40,9 +40,6 @@ StartIndex(u) ==
 
 \* name (digit) of the generator at bit position j (0-based)
 GenName(u, j) == IF u.basis # <<>> THEN VecNames(u)[j + 1] ELSE j + StartIndex(u)
-\* bit position of the generator with a given name; -1 when there is none
-GenPos(u, n) == LET S == {j \in 0 .. Dim(u) - 1 : GenName(u, j) = n}
-                IN  IF S = {} THEN -1 ELSE CHOOSE j \in S : TRUE
 
 \* admissibility of a custom basis: the three asserts of algebra.py:154-156 plus what
 \* they silently presuppose (every blade of the algebra named exactly once, from the
@@ -60,41 +57,57 @@ Admissible(u) ==
             /\ Cardinality(Range(u.basis[i])) = Len(u.basis[i])
       /\ Cardinality({Range(u.basis[i]) : i \in 1 .. Len(u.basis)}) = Len(u.basis)
 
+(***************************************************************************)
+(* The COMPILED model m of a user-level configuration: explicit tables,    *)
+(* evaluated once (TLCEval), which every operator below takes.              *)
+(*   d, usig, start, custom, basis                                          *)
+(*   gen   : sequence, gen[j+1] = name of the generator at bit j            *)
+(*   names : sequence, names[B+1] = canonical name of blade B (bin2canon)   *)
+(*   order : canonical order of the blades (iteration order of canon2bin)   *)
+(***************************************************************************)
+UC(u) ==
+  LET usig == UserSignature(u)
+      d == Len(usig)
+      start == StartIndex(u)
+      gen == TLCEval([j \in 1 .. d |-> GenName(u, j - 1)])
+      pos(n) == CHOOSE j \in 0 .. d - 1 : gen[j + 1] = n
+      nbin(name) == BinOf({pos(name[i]) : i \in DOMAIN name})
+      defname(B) == LET a == Asc(d, B) IN [i \in DOMAIN a |-> gen[a[i] + 1]]
+      names == IF u.basis = <<>> THEN TLCEval([i \in 1 .. Pow2(d) |-> defname(i - 1)])
+               ELSE TLCEval([i \in 1 .. Pow2(d) |->
+                               u.basis[CHOOSE k \in DOMAIN u.basis : nbin(u.basis[k]) = i - 1]])
+      pop == TLCEval([B \in Blades(d) |-> Popcount(d, B)])
+      order == IF u.basis = <<>> THEN
+                  TLCEval(SetToSortSeq(Blades(d),
+                             LAMBDA A, B : \/ pop[A] < pop[B]
+                                           \/ pop[A] = pop[B] /\ SeqLess(names[A + 1], names[B + 1])))
+               ELSE TLCEval([i \in DOMAIN u.basis |-> nbin(u.basis[i])])
+  IN  [d |-> d, usig |-> usig, start |-> start, custom |-> (u.basis # <<>>), basis |-> u.basis,
+       gen |-> gen, names |-> names, order |-> order]
+
+\* bit position of the generator with a given name; -1 when there is none
+GenPos(m, n) == LET S == {j \in 0 .. m.d - 1 : m.gen[j + 1] = n}
+                IN  IF S = {} THEN -1 ELSE CHOOSE j \in S : TRUE
 \* bitmask of a name (sequence of generator names)
-NameBin(u, name) == BinOf({GenPos(u, name[i]) : i \in DOMAIN name})
+NameBin(m, name) == BinOf({GenPos(m, name[i]) : i \in DOMAIN name})
 \* spelling (bit positions) of a name
-NameSpelling(u, name) == [i \in DOMAIN name |-> GenPos(u, name[i])]
-
-\* default name of blade B: ascending bit positions (algebra.py:164-167)
-DefaultName(u, B) == [i \in 1 .. Popcount(Dim(u), B) |-> GenName(u, Asc(Dim(u), B)[i])]
-
+NameSpelling(m, name) == [i \in DOMAIN name |-> GenPos(m, name[i])]
 \* bin2canon: bitmask -> name
-CanonName(u, B) ==
-  IF u.basis = <<>> THEN DefaultName(u, B)
-  ELSE LET S == {i \in 1 .. Len(u.basis) : NameBin(u, u.basis[i]) = B}
-       IN  u.basis[CHOOSE i \in S : TRUE]
-
+CanonName(m, B) == m.names[B + 1]
 \* canon2bin iteration order (canonical order of blades): algebra.py:160-168
-CanonOrder(u) ==
-  IF u.basis = <<>> THEN
-     SetToSortSeq(Blades(Dim(u)),
-                  LAMBDA A, B : \/ Popcount(Dim(u), A) < Popcount(Dim(u), B)
-                                \/ /\ Popcount(Dim(u), A) = Popcount(Dim(u), B)
-                                   /\ SeqLess(DefaultName(u, A), DefaultName(u, B)))
-  ELSE [i \in 1 .. Len(u.basis) |-> NameBin(u, u.basis[i])]
-
+CanonOrder(m) == m.order
 \* metric of the generator at bit j: signature[int(name) - start_index]  (algebra.py:285)
-BitMetric(u, j) == UserSignature(u)[GenName(u, j) - StartIndex(u) + 1]
+BitMetric(m, j) == m.usig[m.gen[j + 1] - m.start + 1]
 
 (***************************************************************************)
 (* The bit-level configuration denoted by u: what the user ASKED for.       *)
 (***************************************************************************)
-BitCfg(u) ==
-  LET d == Dim(u) IN
-  [d |-> d,
-   sig |-> [j \in 1 .. d |-> BitMetric(u, j - 1)],
-   spell |-> [i \in 1 .. Pow2(d) |-> NameSpelling(u, CanonName(u, i - 1))],
-   order |-> CanonOrder(u)]
+BitCfgM(m) ==
+  [d |-> m.d,
+   sig |-> TLCEval([j \in 1 .. m.d |-> BitMetric(m, j - 1)]),
+   spell |-> TLCEval([i \in 1 .. Pow2(m.d) |-> NameSpelling(m, CanonName(m, i - 1))]),
+   order |-> m.order]
+BitCfg(u) == BitCfgM(UC(u))
 
 (***************************************************************************)
 (* _swap_blades (algebra.py:505-538), transcribed step by step.  Blades are *)
@@ -129,34 +142,34 @@ SwapBlades(blade1, blade2, target) ==
   ELSE LET r2 == SwapPhase2(r1[2], target, 1, r1[1]) IN <<r2[1], r2[2], r1[3]>>
 
 \* _compute_sign (algebra.py:274-286)
-ImplSign(u, I, J) ==
-  LET eI == CanonName(u, I)
-      eJ == CanonName(u, J)
-      r == SwapBlades(eI, eJ, CanonName(u, BXor(Dim(u), I, J)))
+ImplSign(m, I, J) ==
+  LET eI == CanonName(m, I)
+      eJ == CanonName(m, J)
+      r == SwapBlades(eI, eJ, CanonName(m, BXor(m.d, I, J)))
       s0 == Parity(r[1])
-  IN  FoldSet(LAMBDA i, acc : acc * UserSignature(u)[r[3][i] - StartIndex(u) + 1], s0, DOMAIN r[3])
+  IN  FoldSet(LAMBDA i, acc : acc * m.usig[r[3][i] - m.start + 1], s0, DOMAIN r[3])
 
 \* _blade2canon (algebra.py:469-479): <<canonical name, swaps>>, or <<"none", 0>> when the
 \* spelling names no blade of the algebra
-Blade2Canon(u, name) ==
-  IF \E i \in 1 .. Pow2(Dim(u)) : CanonName(u, i - 1) = name THEN <<name, 0>>
-  ELSE IF \E k \in DOMAIN name : GenPos(u, name[k]) = -1 THEN <<"none", 0>>
-  ELSE LET canon == CanonName(u, NameBin(u, name))
+Blade2Canon(m, name) ==
+  IF \E i \in 1 .. Pow2(m.d) : CanonName(m, i - 1) = name THEN <<name, 0>>
+  ELSE IF \E k \in DOMAIN name : GenPos(m, name[k]) = -1 THEN <<"none", 0>>
+  ELSE LET canon == CanonName(m, NameBin(m, name))
            r == SwapBlades(name, <<>>, canon)
        IN  <<canon, r[1]>>
 
 \* cayley (algebra.py:296-306): <<sign, name of I xor J>>  (sign 0 = the string '0')
-ImplCayley(u, I, J) == <<ImplSign(u, I, J), CanonName(u, BXor(Dim(u), I, J))>>
+ImplCayley(m, I, J) == <<ImplSign(m, I, J), CanonName(m, BXor(m.d, I, J))>>
 
 \* indices_for_grade (algebra.py:218-228): canonical order restricted to one grade
-IndicesForGrade(u, g) == SelectSeq(CanonOrder(u), LAMBDA B : Popcount(Dim(u), B) = g)
+IndicesForGrade(m, g) == SelectSeq(CanonOrder(m), LAMBDA B : Popcount(m.d, B) = g)
 RECURSIVE ConcatGrades(_, _)
-ConcatGrades(u, gs) == IF gs = <<>> THEN <<>> ELSE IndicesForGrade(u, Head(gs)) \o ConcatGrades(u, Tail(gs))
-IndicesForGrades(u, gs) == ConcatGrades(u, SetToSortSeq(gs, <))
+ConcatGrades(m, gs) == IF gs = <<>> THEN <<>> ELSE IndicesForGrade(m, Head(gs)) \o ConcatGrades(m, Tail(gs))
+IndicesForGrades(m, gs) == ConcatGrades(m, SetToSortSeq(gs, <))
 
 \* type_number (multivector.py:129-131): bit i set iff the i-th blade in canonical order is stored
-TypeNumber(u, keyset) ==
-  LET ord == CanonOrder(u) IN
+TypeNumber(m, keyset) ==
+  LET ord == CanonOrder(m) IN
   FoldSet(LAMBDA i, acc : IF ord[i] \in keyset THEN acc + Pow2(i - 1) ELSE acc, 0, DOMAIN ord)
 
 (***************************************************************************)
@@ -165,22 +178,25 @@ TypeNumber(u, keyset) ==
 (***************************************************************************)
 \* kingdon's swap-count sign is the Clifford sign of the named blades
 SignRefinement(u) ==
-  LET c == BitCfg(u) IN
-  \A I, J \in Blades(c.d) : ImplSign(u, I, J) = RefSign(c, I, J)
+  LET m == UC(u)
+      c == BitCfgM(m) IN
+  \A I, J \in Blades(c.d) : ImplSign(m, I, J) = RefSign(c, I, J)
 
 \* every permuted spelling of every blade gets the parity of the permutation
 SpellingRefinement(u, spellings) ==
-  LET c == BitCfg(u) IN
+  LET m == UC(u)
+      c == BitCfgM(m) IN
   \A name \in spellings :
-     LET r == Blade2Canon(u, name)
-         B == NameBin(u, name)
-     IN  /\ r[1] = CanonName(u, B)
-         /\ Parity(r[2]) = Orient(NameSpelling(u, name)) * Ori(c, B)
+     LET r == Blade2Canon(m, name)
+         B == NameBin(m, name)
+     IN  /\ r[1] = CanonName(m, B)
+         /\ Parity(r[2]) = Orient(NameSpelling(m, name)) * Ori(c, B)
 
 BitCfgWellFormed(u) == WellFormedCfg(BitCfg(u))
 
 \* the number of distinct type numbers equals the number of key sets (names are injective
 \* in the key SET -- and only in the set: this is the deviation C09 turns on)
 TypeNumberInjectiveOnSets(u) ==
-  \A S, T \in SUBSET Blades(Dim(u)) : TypeNumber(u, S) = TypeNumber(u, T) => S = T
+  LET m == UC(u) IN
+  \A S, T \in SUBSET Blades(m.d) : TypeNumber(m, S) = TypeNumber(m, T) => S = T
 =============================================================================
